@@ -156,6 +156,10 @@ class Exporter(object):
             self.rec(n, T_STMT, 'SCOPE')
             return N('KAug', [self.ex(n.target), self.ex(n.value)])
         if isinstance(n, ast.AnnAssign):
+            if isinstance(n.target, ast.Name) and not n.simple and n.value is None:
+                # `(x): T`: CPython does not bind x (known finding activity-parenthesized-annotation-binds); the
+                # tree has no `simple` flag, so the binding rule of Binders.v cannot express it
+                raise Unsupported('value-less annotated assignment to a parenthesised name')
             self.rec(n, T_STMT, 'SCOPE')
             t = self.ex(n.target)
             v = self.gen([n.value] if n.value is not None else [])
